@@ -1070,6 +1070,11 @@ event_reinit(struct event_base *base)
 		base->th_notify_fd[1] = -1;
 		event_debug_unassign(&base->th_notify);
 	}
+	/* A wakeup that was in flight when we forked was written to the
+	 * parent's notification fd, which we no longer have: nothing will ever
+	 * drain it here, so forget about it or every later notification in
+	 * this process would be suppressed. */
+	base->is_notify_pending = 0;
 
 	/* Replace the original evsel. */
         base->evsel = evsel;
